@@ -258,7 +258,7 @@ def check_slice_str(chk, cfg, b, what):
         src = xlate.iter_source(conts[0])
         zipok = False
         if src is not None and an.is_call(src, re.compile(r"Iterator>::zip::<")):
-            zipok = an.is_call(src[2][0], re.compile(r"^seq::iterators::<impl seq::slice::SeqSlice<A>>::iter$|into_iter$"), (P(1),)) and \
+            zipok = an.is_call(src[2][0], re.compile(r"^seq::slice::SeqSlice::<A>::iter$|into_iter$"), (P(1),)) and \
                 src[2][1] == ("call", "core::str::<impl str>::as_bytes", (P(2),), None)
         if len(dec) == 1 and dec[0][1] == (byte,) and zipok:
             falses = [p for p in rets if p.ret == ("int", 0, "bool") and p not in early]
